@@ -199,6 +199,33 @@ def UniqueSyms (t : Op) : Prop := ∀ n a b, Member t n a → Member t n b → a
 /-- what a verified module guarantees to the resolvers: every table in it has unique names -/
 def Verified (root : Op) : Prop := ∀ t, Sub root t → t.isTable = true → UniqueSyms t
 
+/-! ### names are opaque tokens
+
+The Python code handles a symbol name as a `str`; the model numbers the names.  That is adequate
+exactly when the resolvers use nothing of a name but equality with other names: then respelling
+the names of a tree and of the reference by any injective map changes no answer.  `Op.rename` is
+that respelling (the `XdslProofs.C29` theorems `rename_*` state the invariance for every entry
+point; the harness runs the real resolvers under many spellings of the same numbered tree). -/
+
+mutual
+/-- the same tree with every `sym_name` sent through `f` -/
+def Op.rename (f : Nat → Nat) : Op → Op
+  | .mk i t s n v body rest => .mk i t s (n.map f) v (renameList f body) (renameList f rest)
+def renameList (f : Nat → Nat) : List Op → List Op
+  | [] => []
+  | o :: os => o.rename f :: renameList f os
+end
+
+/-- the same reference with every component sent through `f` -/
+def Sym.rename (f : Nat → Nat) : Sym → Sym
+  | .flat n => .flat (f n)
+  | .ref r ns => .ref (f r) (ns.map f)
+
+/-- `SymbolTable(op).lookup(name)`: the dict of `__init__`, plain names only -/
+def tableLookup (t : Op) : Sym → Option (Option Op)
+  | .flat n => some (cachedChild t n)
+  | .ref _ _ => none
+
 /-! ### line protocol -/
 
 def parseVis : String → Option (Option Vis)
@@ -303,8 +330,9 @@ def lineStep (st : State) (line : String) : State × String :=
           let inPart :=
             if o.isTable then
               s!"di={showOpt (lookupIn directChild o s)} da={showList (lookupAllIn directChild o s)} " ++
-              s!"ci={showOpt (lookupIn cachedChild o s)} ca={showList (lookupAllIn cachedChild o s)}"
-            else "di=- da=- ci=- ca=-"
+              s!"ci={showOpt (lookupIn cachedChild o s)} ca={showList (lookupAllIn cachedChild o s)} " ++
+              s!"tl={match tableLookup o s with | some r => showOpt r | none => "-"}"
+            else "di=- da=- ci=- ca=- tl=-"
           (st, s!"near={showOpt (nearestTable chain)} dn={showOpt (lookupNearest directChild chain s)} " ++
                s!"cn={showOpt (lookupNearest cachedChild chain s)} cf={showOpt (lookupNearest cachedChild chain s)} " ++
                s!"tr={showTraits (traitsLookup chain s)} " ++ inPart)
